@@ -215,6 +215,10 @@ def judgeEv (exps : List Expect) (obs : List Obs) : List String :=
   if loadFailed && !(exps.any fun e => e.kind == "init") then
     -- the generated program did not compile: a defect of the generator, not an observation about C18
     ["setup load-failed"]
-  else judgeEhs exps (ehsOf obs) ++ judgeObs obs [] []
+  else
+    let crashes := obs.filterMap fun | .crash t => some s!"crash {t}" | _ => none
+    -- a crash hides the rest of the run: report it alone (J4)
+    if !crashes.isEmpty then crashes.take 1
+    else judgeEhs exps (ehsOf obs) ++ judgeObs obs [] []
 
 end NV.C18
